@@ -148,14 +148,53 @@ def rule_part_bounds(cx):
 
 
 def walker_rule(cx, fn, rule, base_addr, base_count, kind):
-    """chunk walkers (persistent_calculate_checksum / persistent_writen): conserved
-    quantity address + rest, chunk <= rest, chunk <= scratch capacity, progress."""
+    """chunk walkers (persistent_calculate_checksum / persistent_writen), whatever their loop is written like.
+
+    Progress variables are found by what they do, not by name or direction: a loop variable that every iteration moves
+    by exactly the chunk length, up (an address, a count of octets done) or down (a remaining count).  For each,
+    P = +-(value - value before the loop) is the number of octets walked so far; all of them agree by induction (0 at
+    entry, + chunk per iteration), which is added as a fact.  Then: the medium is accessed at base + P, with a chunk
+    that is at least 1, at most what is left (count - P) and at most the scratch memory; SUCCESS is reported only with
+    P == count."""
     ck, eng = cx.ck, cx.eng
     ps = cx.paths(fn, rule)
     if ps is None:
         return
     where = cx.where(fn)
     nit = 0
+    # progress variables per loop
+    track = {}
+    for p in ps:
+        mc = [e for e in medium_calls(p) if e.inloop]
+        if p.end != 'loopback' or len(mc) != 1 or not p.loops:
+            continue
+        node, lmap = p.loops[-1]
+        a, ln, mem = addr_len(mc[0])
+        cur = {}
+        for k, (h, pre) in lmap.items():
+            if pre is None:
+                continue
+            d = L(strip_cast(p.mem.get(k, h))) - L(h)
+            if (d - L(ln)).is_const() and (d - L(ln)).c == 0:
+                cur[k] = 1
+            elif (d + L(ln)).is_const() and (d + L(ln)).c == 0:
+                cur[k] = -1
+        t = track.get(id(node))
+        track[id(node)] = cur if t is None else {k: sg for k, sg in t.items() if cur.get(k) == sg}
+
+    def progress(p):
+        """(P, invariant facts) for the innermost loop of p"""
+        node, lmap = p.loops[-1]
+        tr = track.get(id(node)) or {}
+        Ps = [(L(lmap[k][0]) - L(strip_cast(lmap[k][1]))).scale(sg) for k, sg in sorted(tr.items(), key=lambda kv: fmt(kv[0])) if k in lmap]
+        if not Ps:
+            return None, []
+        inv = []
+        for q in Ps[1:]:
+            inv += [Ps[0] - q, q - Ps[0]]
+        inv += [Lin.const(0) - Ps[0], Ps[0] - L(base_count)]
+        return Ps[0], inv
+
     for p in ps:
         mc = [e for e in medium_calls(p) if e.inloop]
         if not mc:
@@ -167,25 +206,24 @@ def walker_rule(cx, fn, rule, base_addr, base_count, kind):
         nit += 1
         a, ln, mem = addr_len(e)
         lmap = p.loops[-1][1]
-        facts = eng.path_facts(p)
-        # identify address and rest variables by their pre-loop values
-        ak = [k for k, (h, pre) in lmap.items() if pre is not None and strip_cast(pre) == base_addr]
-        rk = [k for k, (h, pre) in lmap.items() if pre is not None and strip_cast(pre) == base_count]
-        if len(ak) != 1 or len(rk) != 1:
+        P, inv = progress(p)
+        if P is None:
             ck.violation(rule, fn + ':walk:start', e.where(),
-                         'walk does not start at (%s, %s): loop variables start at %s' % (
-                             fmt(base_addr), fmt(base_count),
+                         'no loop variable moves by the chunk length %s per iteration: the walk over (%s, %s) keeps no account of what it has covered (loop variables start at %s)' % (
+                             fmt(ln), fmt(base_addr), fmt(base_count),
                              {fmt(k): fmt(pre) for k, (h, pre) in lmap.items() if pre is not None}))
             continue
-        ha, hr = lmap[ak[0]][0], lmap[rk[0]][0]
-        key = '%s:%s:%s:%s' % (fn, 'aux' if mem == BUF_DATA else 'octet', 'tail' if strip_cast(ln) == hr else 'full', p.end)
+        facts = eng.path_facts(p) + inv
+        tail = eng.entails(facts, L(base_count) - P - L(ln))        # chunk == everything that is left
+        key = '%s:%s:%s:%s' % (fn, 'aux' if mem == BUF_DATA else 'octet', 'tail' if tail else 'full', p.end)
         if key in cx.__dict__.setdefault('_seen', set()):
             key += ':' + '&'.join(fmt(c) for c in p.cond_terms()[-2:])
         cx._seen.add(key)
-        if strip_cast(a) != ha:
-            ck.violation(rule, key + ':addr', e.where(), 'medium address is %s, not the walking address' % fmt(a))
+        da = L(strip_cast(a)) - L(base_addr) - P
+        if not (eng.entails(facts, da) and eng.entails(facts, -da)):
+            ck.violation(rule, key + ':addr', e.where(), 'medium address is %s, not %s + the octets walked so far' % (fmt(a), fmt(base_addr)))
             continue
-        ok_le = eng.entails(facts, L(ln) - L(hr))
+        ok_le = eng.entails(facts, L(ln) - (L(base_count) - P))
         ok_ge = eng.entails(facts, Lin.const(1) - L(ln))
         # scratch capacity
         if mem == BUF_DATA:
@@ -195,20 +233,10 @@ def walker_rule(cx, fn, rule, base_addr, base_count, kind):
         else:
             cap = None
         ok_cap = cap is not None and eng.entails(facts, L(ln) - cap)
-        if p.end == 'loopback':
-            a2 = p.mem.get(ak[0], ha)
-            r2 = p.mem.get(rk[0], hr)
-            d = (L(strip_cast(a2)) + L(r2)) - (L(ha) + L(hr))
-            ok_cons = d.is_const() and d.c == 0
-            mv = L(hr) - L(r2) - L(ln)
-            ok_mv = mv.is_const() and mv.c == 0
-        else:
-            ok_cons = ok_mv = True
-        ck.verdict(ok_le and ok_cons and ok_mv, 'C10.b', key + ':region', e.where(),
-                   'chunk [%s, +%s) stays inside [%s, +%s): chunk <= rest and address+rest is conserved' % (fmt(a), fmt(ln), fmt(base_addr), fmt(base_count))
-                   if ok_le and ok_cons and ok_mv else
-                   'chunk of %s at %s: %s' % (fmt(ln), fmt(a), 'not bounded by the remaining count' if not ok_le else
-                                             'address and remaining count do not advance together by the chunk length'))
+        ck.verdict(ok_le, 'C10.b', key + ':region', e.where(),
+                   'chunk [%s, +%s) stays inside [%s, +%s): chunk <= what is left, address and count move together by the chunk' % (fmt(a), fmt(ln), fmt(base_addr), fmt(base_count))
+                   if ok_le else
+                   'chunk of %s at %s: not bounded by the remaining count' % (fmt(ln), fmt(a)))
         ck.verdict(ok_cap, 'C10.b', key + ':scratch', e.where(),
                    'chunk fits the scratch memory %s' % fmt(mem) if ok_cap else 'chunk of %s not proved to fit scratch %s' % (fmt(ln), fmt(mem)))
         ck.verdict(ok_ge, 'C10.c', key + ':progress', e.where(),
@@ -232,19 +260,20 @@ def walker_rule(cx, fn, rule, base_addr, base_count, kind):
         if acc != C(SUCCESS):
             continue
         ndone += 1
-        lmap = p.loops[-1][1]
-        rk = [k for k, (h, pre) in lmap.items() if pre is not None and strip_cast(pre) == base_count]
-        if len(rk) != 1:
+        P, inv = progress(p)
+        if P is None:
             continue
-        z = L(lmap[rk[0]][0])
-        okz = eng.entails(p, z) and eng.entails(p, -z)
+        facts = eng.path_facts(p) + inv
+        z = L(base_count) - P
+        okz = eng.entails(facts, z) and eng.entails(facts, -z)
         if not okz:
-            # a final access behind the loop that covers exactly what the loop left: (walking address, remaining count)
-            ak = [k for k, (h, pre) in lmap.items() if pre is not None and strip_cast(pre) == base_addr]
+            # a final access behind the loop that covers exactly what the loop left: (base + P, count - P)
             post = [e for e in medium_calls(p) if not e.inloop]
-            if len(ak) == 1 and len(post) == 1:
+            if len(post) == 1:
                 a_, ln_, mem_ = addr_len(post[0])
-                if strip_cast(a_) == lmap[ak[0]][0] and strip_cast(ln_) == lmap[rk[0]][0]:
+                da = L(strip_cast(a_)) - L(base_addr) - P
+                dl = L(strip_cast(ln_)) - z
+                if all(eng.entails(facts, x) for x in (da, -da, dl, -dl)):
                     okz = True
         ck.verdict(okz, rule, fn + ':walk:complete', where,
                    'SUCCESS is reported only when the whole region has been walked (remaining == 0)' if okz else
@@ -452,7 +481,11 @@ def rule_width(cx, rule='C10.d', fns=('checksum_size', 'persistent_checksum', 'p
 def rule_fold(cx):
     """C10.c fold shape: seed, update, same member one-shot vs chunked"""
     ck = cx.ck
-    via = cx.helpers_reached('persistent_calculate_checksum')
+    via = set()
+    for h in cx.helpers_reached('persistent_calculate_checksum'):
+        for c in cast.calls_in(cx.u.body(h)):
+            if cast.callee_name(c) is None and 'process' in cast.member_chain(cast.strip(c['inner'][0])):
+                via.add(h)
     if via:
         # the accumulator is updated through a helper's pointer parameter: a shape this rule does not read reliably
         return ck.broken('C10.c', 'persistent_calculate_checksum:fold', cx.where('persistent_calculate_checksum'),
